@@ -40,8 +40,12 @@ impl Authorizer {
             Some(execution_time) => Ok(execution_time),
             None => {
                 let start = Instant::now();
-                self.world
-                    .run_with_limits(&self.symbols, self.limits.clone())?;
+                // iterations spent by earlier (failed) runs count against the budget
+                let mut limits = self.limits.clone();
+                limits.max_iterations = limits
+                    .max_iterations
+                    .saturating_sub(self.world.iterations);
+                self.world.run_with_limits(&self.symbols, limits)?;
                 let execution_time = start.elapsed();
                 self.execution_time = Some(execution_time);
                 Ok(execution_time)
@@ -145,7 +149,9 @@ impl Authorizer {
     {
         let execution_time = self.run()?;
         let mut limits = self.limits.clone();
-        limits.max_iterations -= self.world.iterations;
+        limits.max_iterations = limits
+            .max_iterations
+            .saturating_sub(self.world.iterations);
         if execution_time >= limits.max_time {
             return Err(error::Token::RunLimit(error::RunLimit::Timeout));
         }
@@ -269,7 +275,9 @@ impl Authorizer {
     {
         let execution_time = self.run()?;
         let mut limits = self.limits.clone();
-        limits.max_iterations -= self.world.iterations;
+        limits.max_iterations = limits
+            .max_iterations
+            .saturating_sub(self.world.iterations);
         if execution_time >= limits.max_time {
             return Err(error::Token::RunLimit(error::RunLimit::Timeout));
         }
@@ -361,7 +369,9 @@ impl Authorizer {
     pub fn authorize(&mut self) -> Result<usize, error::Token> {
         let execution_time = self.run()?;
         let mut limits = self.limits.clone();
-        limits.max_iterations -= self.world.iterations;
+        limits.max_iterations = limits
+            .max_iterations
+            .saturating_sub(self.world.iterations);
         if execution_time >= limits.max_time {
             return Err(error::Token::RunLimit(error::RunLimit::Timeout));
         }
